@@ -734,3 +734,49 @@ def r12(R):
                         'the undo-log entry\'s keys are overwritten from '
                         'the extension',
                         key='extension overrides the entry')
+
+
+# ------------------------------------------------------------------ C06.R13
+@rule('C06.R13', 'every walk backwards over the transaction log goes down to '
+      'the same position, the end of the file\'s magic: the undo log and the '
+      'search for the transaction to undo see the first transaction, however '
+      'short it is (sibling agreement with lastInvalidations)',
+      props=['C04'], min_instances=3)
+def r13(R):
+    fs = R.prog.cls(FS)
+    us = R.prog.cls('ZODB.FileStorage.FileStorage.UndoSearch')
+    walkers = [(fs, 'lastInvalidations'), (fs, '_txn_find'),
+               (us, 'finished')]
+    bounds = {}
+    for cls, meth in walkers:
+        f = R.method(cls, meth)
+        for c in walk_local(f.node):
+            if not (isinstance(c, ast.Compare) and len(c.ops) == 1):
+                continue
+            from ..flow import cmp_sides
+            for l, op, r in cmp_sides(c):
+                ld = dotted(l)
+                if ld and ld[-1] == 'pos' and isinstance(
+                        r, ast.Constant) and isinstance(r.value, int) and \
+                        not isinstance(r.value, bool):
+                    # "the walk goes on while pos > K"
+                    k = {ast.Gt: r.value, ast.GtE: r.value - 1,
+                         ast.Lt: r.value - 1, ast.LtE: r.value}.get(op)
+                    if k is not None:
+                        bounds[(cls.name, meth)] = (k, c)
+    R.require(len(bounds) >= 3, 'backward walks found: %s' % sorted(bounds))
+    ref = bounds.get(('FileStorage', 'lastInvalidations'))
+    for (cn, meth), (k, c) in sorted(bounds.items()):
+        R.instance('%s.%s walks back while pos > %d' % (cn, meth, k))
+        if ref is not None and k != ref[0]:
+            f = R.method(fs if cn == 'FileStorage' else us, meth)
+            R.violation(
+                (f.module.relpath, f.qualname,
+                 ' '.join(ast.unparse(c).split()), c.lineno),
+                '%s.%s stops walking back at position %d, lastInvalidations '
+                'at %d (the end of the magic): a first transaction that '
+                'ends below that position -- no records, next to no '
+                'metadata: 31 bytes -- is never shown by undoLog() and '
+                'cannot be named to undo(), although iterator() reports it'
+                % (cn, meth, k, ref[0]),
+                key='backward walk stops short of the first transaction')
